@@ -65,6 +65,8 @@ def main():
         if "harness_exception" in o:
             raise common.InfraError("pipeline worker failed:\n" + o["harness_exception"])
         ck.count("status_" + o["status"])
+        if o["profile"].startswith("sweep:"):
+            ck.count("sweep_" + o["profile"].split(":", 1)[1])
         if o["status"] != "ok" or not o.get("out_model"):
             continue
         model = fbwalk.parse(o["out_model"])
